@@ -5,7 +5,12 @@ use std::path::Path;
 pub mod rematch;
 pub mod audit;
 pub mod price;
+pub mod git;
+pub mod out;
+pub mod fmt;
 pub mod run;
+pub mod strict;
+pub mod ts;
 
 pub fn dispatch(case: &Value, dir: &Path) -> Value {
     match case.get("op").and_then(|x| x.as_str()) {
@@ -15,6 +20,14 @@ pub fn dispatch(case: &Value, dir: &Path) -> Value {
         Some("audit") => audit::op_audit(case, dir),
         Some("hash") => audit::op_hash(case, dir),
         Some("price") => price::op_price(case, dir),
+        Some("git") => git::op_git(case, dir),
+        Some("bufw") => out::op_bufw(case),
+        Some("wfail") => out::op_wfail(case, dir),
+        Some("fmt") => fmt::op_fmt(case, dir),
+        Some("strict") => strict::op_strict(case, dir),
+        Some("ts") => ts::op_ts(case, dir),
+        Some("tsfmt") => ts::op_tsfmt(case, dir),
+        Some("tzdata") => ts::op_tzdata(case, dir),
         Some(op) => json!({"r": "BADCASE", "msg": format!("unknown op {op}")}),
         None => json!({"r": "BADCASE", "msg": "no op"}),
     }
